@@ -62,6 +62,12 @@ var protos = map[string]*Proto{}
 
 func register(p *Proto) { protos[p.Name] = p }
 
+// subcmds are hidden sub-commands (`zvh <name> args…`), e.g. the child process of protocol crash.
+var subcmds = map[string]func(args []string){}
+
+// atExit functions run once after the last op line (protocols that keep a cluster / temp dirs alive across lines).
+var atExit []func()
+
 func hexs(b []byte) string {
 	if len(b) == 0 {
 		return "-"
@@ -97,6 +103,10 @@ func main() {
 		os.Exit(2)
 	}
 	mode := os.Args[1]
+	if f := subcmds[mode]; f != nil {
+		f(os.Args[2:])
+		return
+	}
 	if mode == "list" {
 		var ns []string
 		for n := range protos {
@@ -124,6 +134,10 @@ func main() {
 
 	var ops []string
 	switch mode {
+	case "gen": // print the op lines a run would execute
+		rng := rand.New(rand.NewSource(*seed))
+		p.Gen(rng, *tier, func(s string) { fmt.Println(s) })
+		return
 	case "run":
 		rng := rand.New(rand.NewSource(*seed))
 		p.Gen(rng, *tier, func(s string) { ops = append(ops, s) })
@@ -143,6 +157,11 @@ func main() {
 		f.Close()
 	default:
 		os.Exit(2)
+	}
+	// every temp dir of a run lives under one root that is removed at the end (protocols may leave engine dirs behind)
+	if tmp, err := os.MkdirTemp("", "zvhrun-"); err == nil {
+		os.Setenv("TMPDIR", tmp)
+		defer os.RemoveAll(tmp)
 	}
 	c := &Ctx{notes: map[string]int{}}
 	ex := p.New(c)
@@ -184,6 +203,9 @@ func main() {
 	rw.Flush()
 	of.Close()
 	rf.Close()
+	for _, f := range atExit {
+		f()
+	}
 	meta := map[string]interface{}{
 		"proto": p.Name, "seed": *seed, "tier": *tier, "evaluations": len(ops),
 		"distinct_nontrivial": len(distinct), "op_hist": opHist, "out_hist": outHist,
